@@ -212,6 +212,11 @@ SEQ_TOREAL = z3.Function("seq_toreal", z3.ArraySort(I, I), z3.ArraySort(I, R))  
 _sa, _sj = z3.Const("_sa", z3.ArraySort(I, I)), z3.Int("_sj")
 THEORY["seq_toreal_def"] = z3.ForAll([_sa, _sj], SEQ_TOREAL(_sa)[_sj] == z3.ToReal(_sa[_sj]), patterns=[SEQ_TOREAL(_sa)[_sj]])
 
+# row-major position of a[i, j] in a.flatten() for an array with c columns, and the length of the flattened array: specification functions
+# (their arithmetic definitions i * c + j and r * c are nonlinear and not needed by any proof; they are stated in DESIGN.md, not to the solver)
+FLAT = z3.Function("flat_index", I, I, I, I)
+FLATLEN = z3.Function("flat_len", I, I, I)
+
 EXTRA = {}    # name -> axiom, registered by contract modules (assumed properties of uncontracted code; listed as trusted)
 
 
